@@ -5,6 +5,7 @@ import (
 	"errors"
 	"fmt"
 	"strconv"
+	"strings"
 	"sync"
 	"testing"
 	"time"
@@ -499,7 +500,8 @@ func runXInner(c *vt.C, s *XScript) (nontrivial bool, f *vt.Finding) {
 	// --- what is still stored -----------------------------------------------------------------------------
 	stored := map[int64]bool{}
 	for kk, body := range rec.Snapshot() {
-		if _, perr := strconv.ParseUint(kk, 10, 64); perr != nil {
+		// the recording storage prefixes every key with its client's namespace ("<kind>_<id>_<name>/")
+		if _, perr := strconv.ParseUint(kk[strings.LastIndex(kk, "/")+1:], 10, 64); perr != nil {
 			continue // ri / wi / di / si
 		}
 		v, derr := sig.Decode(s.Signal, body)
